@@ -117,4 +117,34 @@ def wfFieldsB : Fields → Bytes → Bool
       wfFieldsB r (b.drop (pad + d.size)) && !(r.names.contains name)
 end
 
+/-! ## the floats of a message, and the class shapes JSON keeps apart -/
+def leafFloats (ty : FTy) (b : Bytes) : List Nat :=
+  match toDictLeaf ty b with
+  | .sc (.flt x) => [x]
+  | .seq _ xs => xs.filterMap fun s => match s with | .flt x => some x | _ => none
+  | _ => []
+
+mutual
+def floatsOf : Desc → Bytes → List Nat
+  | .leaf ty, b => leafFloats ty b
+  | .strct fs _, b => floatsOfFields fs b
+  | .sarr n e, b => (chunks e.size n b).flatMap fun c => floatsOf e c
+def floatsOfFields : Fields → Bytes → List Nat
+  | .nil, _ => []
+  | .cons _ pad d r, b => floatsOf d ((b.drop pad).take d.size) ++ floatsOfFields r (b.drop (pad + d.size))
+end
+
+/- struct arrays have at least one element and their elements are structs (what `StructArray` builds): that is how a
+decoded JSON list is recognised as a list of struct dictionaries -/
+mutual
+def descOkJ : Desc → Bool
+  | .leaf _ => true
+  | .strct fs _ => fieldsOkJ fs
+  | .sarr n e => decide (0 < n) && (match e with | .strct _ _ => true | _ => false) && descOkJ e
+def fieldsOkJ : Fields → Bool
+  | .nil => true
+  | .cons _ _ d r => descOkJ d && fieldsOkJ r
+end
+
+
 end Pyrtma.Serial
